@@ -1,2 +1,113 @@
-From Astisub Require Import Kit.Base.
-Theorem C04_placeholder : True. Proof. exact I. Qed.
+(* C04 -- SSA/ASS codec fidelity (model: Model/Ssa.v, tied to ssa.go by the correspondence suites of harness/ssa_model.go).
+
+   Proved here, for ALL values (no size bound), about the executable model of ReadFromSSAWithOptions / WriteToSSA:
+   * field codecs: booleans (0 false, any other integer true -- what the writer emits is read back), colours (the
+     writer's &H%08x, upper-case hexadecimal and decimal), integers, numbers (thousandths), the script-info timer
+     (decimal comma), times to the centisecond in HH:MM:SS.cc and H:MM:SS.cc;
+   * event text: every list of representable lines and runs, written with any mixture of \N and \n inside one event,
+     is split back into exactly those lines and runs (consecutive override blocks, empty runs, leading empty lines,
+     commas, a line ending in a backslash included);
+   * rows are decoded column by column for EVERY Format line: any order, any subset, repeated or unknown names, the
+     TertiaryColour alias (style rows: C04_style_row_read; event rows with the surplus commas folded into the last
+     column: C04_event_row_read); rows written by the writer are read back under every column list;
+   * documents: for every representable document (doc_repr: decidable side conditions listed in notes/C04.md) the
+     bytes written are read back as the canonical form of the document -- script info and all style attributes
+     unchanged ("true booleans stay true"), items with times truncated to the centisecond, absent margins/layer as 0,
+     the speaker name the writer chose on every line, lines and runs unchanged -- and writing what was read gives
+     the same bytes again (C04_rewrite);
+   * junk lines, unknown sections and non-Dialogue events are ignored; reader and writer never panic; style names
+     with a leading '*' resolve (see below).
+   Faithful domain of the model: floats that are k/1000 with |k| < 10^15 (other ParseFloat inputs are answered
+   Err EOther and compared by result class only), ints in Go's int range, colour components < 256. *)
+From Coq Require Import List ZArith NArith Bool.
+From Astisub Require Import Kit.Base Kit.Str Kit.Scan Model.Dur Model.Ssa.
+From Astisub Require Import Proofs.SsaFields Proofs.SsaText Proofs.SsaRows Proofs.SsaDoc.
+Import ListNotations.
+
+(* ---- field codecs ---- *)
+Theorem C04_bool_written : forall b, parse_bool (format_bool b) = b.
+Proof. exact parse_bool_format. Qed.
+Print Assumptions C04_bool_written.
+Theorem C04_bool_any_nonzero : forall v, int_ok v -> parse_bool (itoa_z v) = negb (v =? 0)%Z.
+Proof. exact parse_bool_int. Qed.
+Print Assumptions C04_bool_any_nonzero.
+Theorem C04_int : forall v, int_ok v -> atoi (itoa_z v) = Some v.
+Proof. exact atoi_itoa_z_all. Qed.
+Print Assumptions C04_int.
+Theorem C04_colour_written : forall c, color_ok c -> parse_color (format_color c) = Ok (Some c).
+Proof. exact parse_color_format. Qed.
+Print Assumptions C04_colour_written.
+Theorem C04_colour_hex_upper : forall c, color_ok c -> parse_color (amp_h ++ map hex_upper (color_string c)) = Ok (Some c).
+Proof. exact parse_color_hex_upper. Qed.
+Print Assumptions C04_colour_hex_upper.
+Theorem C04_colour_decimal : forall c, color_ok c -> parse_color (itoa_z (color_value c)) = Ok (Some c).
+Proof. exact parse_color_decimal. Qed.
+Print Assumptions C04_colour_decimal.
+Theorem C04_number : forall z, float_ok z -> parse_float3 (format_float3 z) = Some z.
+Proof. exact parse_float3_format. Qed.
+Print Assumptions C04_number.
+Theorem C04_timer : forall z, float_ok z -> parse_float3 (comma_to_dot (dot_to_comma (format_float_short z))) = Some z.
+Proof. exact timer_roundtrip. Qed.
+Print Assumptions C04_timer.
+Theorem C04_time_written : forall t, (0 <= t <= max_int64)%Z -> parse_time (format_ssa t) = Some (t - t mod 10000000)%Z.
+Proof. exact parse_time_format. Qed.
+Print Assumptions C04_time_written.
+Theorem C04_time_one_digit_hour : forall h m s c, (0 <= h <= 9)%Z -> (0 <= m < 60)%Z -> (0 <= s < 60)%Z -> (0 <= c < 100)%Z ->
+  parse_time (itoa_z h ++ [58%N] ++ two m ++ [58%N] ++ two s ++ [46%N] ++ two c) =
+  Some (h * hour_ns + m * minute_ns + s * second_ns + c * 10000000)%Z.
+Proof. exact parse_time_h_mm_ss_cc. Qed.
+Print Assumptions C04_time_one_digit_hour.
+
+(* ---- event text ---- *)
+Theorem C04_runs : forall rs, runs_ok rs -> line_runs (concat (map run_string rs)) = rs.
+Proof. exact line_runs_string. Qed.
+Print Assumptions C04_runs.
+Theorem C04_text_lines : forall name ls seps, ls <> [] -> Forall line_ok ls ->
+  text_lines name (join_seps seps (map line_string ls)) = map (fun l => mkAline name (al_runs l)) ls.
+Proof. exact text_lines_rendered. Qed.
+Print Assumptions C04_text_lines.
+
+(* ---- rows, for every Format line ---- *)
+Theorem C04_style_row_read : forall cols cells src,
+  cells <> [] -> Forall (fun c => ~ In 44%N c) cells -> Forall2 (col_ok src) cols cells ->
+  exists r, style_from_string (join [44%N] cells) cols = Ok r /\
+            (forall a, in_cols a cols -> sget a r = sget a src) /\
+            (forall a, ~ in_cols a cols -> sget a r = sget a astyle0).
+Proof. exact style_row_read. Qed.
+Print Assumptions C04_style_row_read.
+Theorem C04_style_row_roundtrip : forall s attrs, style_ok s -> ~ In AName attrs ->
+  exists r, style_from_string (style_string s (AName :: attrs)) (map sattr_name (AName :: attrs)) = Ok r /\
+            sget AName r = sget AName s /\
+            (forall a, In a attrs -> sget a r = sget a s) /\
+            (forall a, a <> AName -> ~ In a attrs -> sget a r = sget a astyle0).
+Proof. exact style_row_roundtrip. Qed.
+Print Assumptions C04_style_row_roundtrip.
+Theorem C04_style_row_roundtrip_full : forall s attrs, style_ok s -> ~ In AName attrs ->
+  (forall a, a <> AName -> sets a s -> In a attrs) ->
+  style_from_string (style_string s (AName :: attrs)) (map sattr_name (AName :: attrs)) = Ok s.
+Proof. exact style_row_roundtrip_full. Qed.
+Print Assumptions C04_style_row_roundtrip_full.
+Theorem C04_event_row_read : forall header cols init last src,
+  Forall (fun c => ~ In 44%N c) init -> Forall2 (ecol_ok src) cols (init ++ [last]) ->
+  exists r, event_from_string header (join [44%N] (init ++ [last])) cols = Ok r /\ av_category r = header /\
+            (forall a, in_ecols a cols -> eget a r = eget a src) /\
+            (forall a, ~ in_ecols a cols -> eget a r = eget a (aevent0 header)).
+Proof. exact event_row_read. Qed.
+Print Assumptions C04_event_row_read.
+Theorem C04_event_row_roundtrip : forall header e init lastc, event_ok e -> ~ In EText init ->
+  let fmt := init ++ [lastc] in
+  exists r, event_from_string header (event_string e fmt) (map eattr_name fmt) = Ok r /\ av_category r = header /\
+            (forall a, In a fmt -> eget a r = ewritten a e) /\
+            (forall a, ~ In a fmt -> eget a r = eget a (aevent0 header)).
+Proof. exact event_row_roundtrip. Qed.
+Print Assumptions C04_event_row_roundtrip.
+
+(* ---- documents ---- *)
+Theorem C04_write_read : forall d, doc_repr d ->
+  exists data, write_ssa d (style_keys d) = Ok data /\ read_ssa data = Ok (canon_doc d).
+Proof. exact write_read. Qed.
+Print Assumptions C04_write_read.
+Theorem C04_rewrite : forall d, doc_repr d ->
+  exists data d', write_ssa d (style_keys d) = Ok data /\ read_ssa data = Ok d' /\ write_ssa d' (style_keys d') = Ok data.
+Proof. exact rewrite_same. Qed.
+Print Assumptions C04_rewrite.
